@@ -824,7 +824,12 @@ class _ProbeContextInjectorNode(_ProbeNode):
             List[str]: A list of context keys that the processor will add or create
             as a result of execution.
         """
-        return [cls.context_key]
+        keys = [cls.context_key]
+        # Keys the wrapped probe itself declares (e.g. ``{var}_values`` of a sweep probe).
+        declared = getattr(cls.processor, "get_created_keys", None)
+        if callable(declared):
+            keys.extend(key for key in declared() if key not in keys)
+        return keys
 
     def __str__(self) -> str:
         """
